@@ -78,7 +78,19 @@ Definition time_content (tm : dtime) : sexp :=
 Definition read_value (ft : ftable) (scope : list (string * string)) (attrs : list (string * string * string))
   (text : string) : option sexp :=
   match xattr xml_ns "lang" attrs with
-  | Some lang => Some (L [A "lit"; A text; A (spec_prov_uri ++ "InternationalizedString"); L [A "some"; A lang]])
+  | Some lang =>
+      (* a language-tagged string.  An xsi:type naming a built-in simple type of XML Schema next to xml:lang is not
+         valid against the schema (a simple type carries no attributes): such an element is not read at all; a type of
+         another namespace may be an extension that allows the attribute, and the tag decides *)
+      let tagged := Some (L [A "lit"; A text; A (spec_prov_uri ++ "InternationalizedString"); L [A "some"; A lang]]) in
+      match xattr xsi_ns "type" attrs with
+      | None => tagged
+      | Some ty =>
+          match resolve_pair scope ty with
+          | Some (tns, _) => if String.eqb tns xsd_ns then None else tagged
+          | None => tagged
+          end
+      end
   | None =>
       match xattr xsi_ns "type" attrs with
       | None => Some (L [A "str"; A text])
